@@ -11,16 +11,16 @@ namespace YaraModel.Arena
 open YaraModel.Gen.ArenaLayout
 
 /-- **Cut inside the header**: every prefix shorter than the 6-byte header is rejected as an invalid file. -/
-theorem prefix_header (a : Arena) (alloc : Nat → Nat) (k : Nat) (hk : k < headerSize) :
-    load alloc ((save a).take k) = .error .invalidFile := by
+theorem prefix_header (cfg : LoaderCfg) (a : Arena) (alloc : Nat → Nat) (k : Nat) (hk : k < headerSize) :
+    load cfg alloc ((save a).take k) = .error .invalidFile := by
   have : ((save a).take k).length < headerSize := by rw [List.length_take]; omega
   rw [load_eq, parseHeader_short this]
 
 /-- **Cut inside the buffer table**: every prefix that ends before the table is complete is
     rejected as a corrupt file. -/
-theorem prefix_table (a : Arena) (alloc : Nat → Nat) (hn : a.bufs.length ≤ maxBuffers) (k : Nat)
+theorem prefix_table (cfg : LoaderCfg) (a : Arena) (alloc : Nat → Nat) (hn : a.bufs.length ≤ maxBuffers) (k : Nat)
     (h1 : headerSize ≤ k) (h2 : k < bodiesStart a) :
-    load alloc ((save a).take k) = .error .corruptFile := by
+    load cfg alloc ((save a).take k) = .error .corruptFile := by
   rw [save_split, take_header_append _ _ h1]
   unfold bodiesStart at h2
   have hshort : (List.take (k - headerSize)
@@ -34,10 +34,10 @@ theorem prefix_table (a : Arena) (alloc : Nat → Nat) (hn : a.bufs.length ≤ m
 /-- **Cut inside the buffer bodies**: every prefix that ends after the table but before the last
     byte of the last buffer is rejected as a corrupt file (the buffer whose `fread` comes back
     short). Buffers are below 2 GiB so that the loader's own allocation does not fail first. -/
-theorem prefix_bodies (a : Arena) (alloc : Nat → Nat) (hn : a.bufs.length ≤ maxBuffers)
+theorem prefix_bodies (cfg : LoaderCfg) (a : Arena) (alloc : Nat → Nat) (hn : a.bufs.length ≤ maxBuffers)
     (hs : ∀ b ∈ a.bufs, b.data.length ≤ 2 ^ 31) (k : Nat)
     (h1 : bodiesStart a ≤ k) (h2 : k < bodiesEnd a) :
-    load alloc ((save a).take k) = .error .corruptFile := by
+    load cfg alloc ((save a).take k) = .error .corruptFile := by
   unfold bodiesEnd at h2
   unfold bodiesStart at h1 h2
   rw [save_split, take_header_append _ _ (by omega)]
@@ -76,10 +76,21 @@ theorem prefix_bodies (a : Arena) (alloc : Nat → Nat) (hn : a.bufs.length ≤ 
       obtain ⟨d', ⟨b, hb, rfl⟩, he⟩ := this
       rw [← he]; exact hs b hb)
     (relocBytes a.relocs) (k - headerSize - tableEntrySize * a.bufs.length) (by rw [hsum]; omega) 0
+  have hoff : offsetsOk
+      (table (headerSize + tableEntrySize * a.bufs.length) ((bodies a).map (·.length)) ++
+        ((bodies (toRefs a)).flatten ++ relocBytes a.relocs).take (k - headerSize - tableEntrySize * a.bufs.length))
+      0 (headerSize + tableEntrySize * a.bufs.length) ((bodies (toRefs a)).map (·.length)) = true := by
+    have := offsetsOk_table (headerSize + tableEntrySize * a.bufs.length) ((bodies a).map (·.length))
+      (((bodies (toRefs a)).flatten ++ relocBytes a.relocs).take (k - headerSize - tableEntrySize * a.bufs.length))
+      0 [] ((bodies a).map (·.length)) rfl rfl
+    rw [hmod] at this
+    simpa using this
   rw [load_eq, parseHeader_header _ hn]
   simp only
   rw [hpt]
   simp only
+  rw [hoff]
+  simp only [Bool.not_true, Bool.and_false, Bool.false_eq_true, if_false]
   rw [hrb]
 
 /-- the hypotheses of the three prefix theorems are satisfiable by a non-trivial arena (three buffers, one
@@ -87,19 +98,21 @@ theorem prefix_bodies (a : Arena) (alloc : Nat → Nat) (hn : a.bufs.length ≤ 
 example : exArena.bufs.length ≤ maxBuffers ∧ (∀ b ∈ exArena.bufs, b.data.length ≤ 2 ^ 31) ∧
     bodiesStart exArena = 42 ∧ bodiesEnd exArena = 64 ∧ (save exArena).length = 80 := by decide
 
-/-- **A trailing partial relocation entry is silently dropped**: `yr_stream_read(…, 8, 1)` returns 0 for it and
-    the loop ends as if the stream had ended at the previous entry boundary. -/
-theorem applyRelocs_partial_ignored (a : Arena) (tail : Bytes) (ht : tail.length < 8) : applyRelocs a tail = .ok a := by
-  match tail, ht with
-  | [], _ => rfl
-  | [_], _ => rfl
-  | [_, _], _ => rfl
-  | [_, _, _], _ => rfl
-  | [_, _, _, _], _ => rfl
-  | [_, _, _, _, _], _ => rfl
-  | [_, _, _, _, _, _], _ => rfl
-  | [_, _, _, _, _, _, _], _ => rfl
-  | _ :: _ :: _ :: _ :: _ :: _ :: _ :: _ :: _, h => simp at h; omega
+/-- **A trailing partial relocation entry** is silently dropped by a loader that requests entries as one
+    8-byte item (`yr_stream_read(…, 8, 1)` returns 0 for it and the loop ends as if the stream had ended at the
+    previous entry boundary), and refused by a loader that notices the leftover bytes. -/
+theorem applyRelocs_partial (cfg : LoaderCfg) (a : Arena) (tail : Bytes) (ht : tail.length < 8) (hne : tail ≠ []) :
+    applyRelocs cfg a tail = if cfg.rejectsPartial then .error .corruptFile else .ok a := by
+  match tail, ht, hne with
+  | [], _, h => exact absurd rfl h
+  | [_], _, _ => rfl
+  | [_, _], _, _ => rfl
+  | [_, _, _], _, _ => rfl
+  | [_, _, _, _], _, _ => rfl
+  | [_, _, _, _, _], _, _ => rfl
+  | [_, _, _, _, _, _], _, _ => rfl
+  | [_, _, _, _, _, _, _], _, _ => rfl
+  | _ :: _ :: _ :: _ :: _ :: _ :: _ :: _ :: _, h, _ => simp at h; omega
 
 /-- what the loader returns for the example image cut after its first relocation entry (byte 72 of 80) -/
 def exLoaded : Arena :=
@@ -113,10 +126,12 @@ def exLoaded : Arena :=
     buffer bodies, that the loader ACCEPTS; in the returned arena a slot the writer had registered is
     not registered and still holds the on-disk reference (here ff…ff), not a pointer.  So
     "every proper prefix is rejected" is false for cut points ≥ `bodiesEnd`; it is proved above for
-    all cut points < `bodiesEnd`. -/
+    all cut points < `bodiesEnd`.  The witness is cut at an entry boundary and is evaluated with the
+    loader configuration read from the source tree (it stands with and without the hardening of
+    notes/C17-loader-validation.diff). -/
 theorem reloc_cut_accepted_witness :
     ∃ (a : Arena) (k : Nat), WF a ∧ bodiesEnd a ≤ k ∧ k < (save a).length ∧
-      ∃ a', load exAlloc ((save a).take k) = .ok a' ∧
+      ∃ a', load loaderCfg exAlloc ((save a).take k) = .ok a' ∧
         ∃ r ∈ a.relocs, r ∉ a'.relocs ∧ ¬ ValidPtr a'.bufs (getSlot a' r) :=
   ⟨exArena, 72, exArena_wf, by decide, by decide, exLoaded, by rfl, ⟨0, 10⟩, by decide, by decide, by decide⟩
 
